@@ -112,6 +112,14 @@ def generate(api):
         # convert_doc drops every cached Arc before the post-pass, so that definitions used once are uniquely held
         conv = re.sub(r"//[^\n]*", "", api.rd('crates/usvg/src/parser/converter.rs'))
         p4, r4, b4 = rs.find_fn(conv, 'convert_doc')
+        # the set the id generators avoid = the ids of ALL elements of the document (round-5 seed C18-15 narrowed it to definitions)
+        need(r"for\s+node\s+in\s+svg_doc\.descendants\(\)\s*\{\s*if\s+!node\.element_id\(\)\.is_empty\(\)\s*\{\s*"
+             r"cache\.all_ids\.insert\(string_hash\(node\.element_id\(\)\)\);\s*\}\s*\}", b4,
+             "convert_doc: generated ids avoid the id of every element of the document")
+        for g_ in ('linear_gradient', 'radial_gradient', 'pattern', 'clip_path', 'mask', 'filter'):
+            pg, rg_, bg = rs.find_fn(conv, 'gen_%s_id' % g_)
+            need(r"loop\s*\{\s*self\.%s_index\s*\+=\s*1;\s*let\s+new_id\s*=\s*format!\(\"\w+\{\}\",\s*self\.%s_index\);\s*let\s+new_hash\s*=\s*string_hash\(&new_id\);\s*"
+                 r"if\s+!self\.all_ids\.contains\(&new_hash\)\s*\{\s*return" % (g_, g_), bg, "gen_%s_id: bump until not an id of the document" % g_)
         need(r"cache\.clip_paths\.clear\(\);\s*cache\.masks\.clear\(\);\s*cache\.filters\.clear\(\);\s*cache\.paint\.clear\(\);\s*"
              r"super::paint_server::update_paint_servers\(", b4, "convert_doc: all four caches cleared before update_paint_servers")
         return "\n".join(ds)
